@@ -7,11 +7,13 @@ import Driver.Disp
 import Driver.TS
 import Driver.Wind
 import Driver.Est
+import Driver.ST
 
 open Osu.Driver
 
 structure DState where
   cache : Option Cache.Sess := none
+  st : Option ST.Ctx := none
 
 def handle (st : DState) (line : String) : DState × String :=
   match (line.trimAscii.toString.splitOn " ").filter (· ≠ "") with
@@ -26,6 +28,10 @@ def handle (st : DState) (line : String) : DState × String :=
   | "ts" :: rest => (st, TS.step rest)
   | "wind" :: rest => (st, Wind.step rest)
   | "est" :: rest => (st, Est.step rest)
+  | "st" :: rest =>
+    let (c, out) := ST.step st.st rest
+    ({ st with st := c }, out)
+  | "solv" :: rest => (st, ST.stepPure rest)
   | _ => (st, "bad-op")
 
 partial def loop (h : IO.FS.Stream) (out : IO.FS.Stream) (st : DState) : IO Unit := do
